@@ -17,6 +17,8 @@ pub fn ops_for(prop: &str) -> Vec<&'static str> {
         "C10" => vec!["combine"],
         "C11" => vec!["flatten"],
         "C12" => vec!["share"],
+        "C14" => vec!["from_iter", "map", "filter", "scan", "take", "skip", "concat", "flatten", "tree"],
+        "C15" => vec!["from_iter"],
         _ => ALL_OPS.to_vec(),
     }
 }
@@ -264,7 +266,7 @@ pub fn witnesses() -> Vec<Witness> {
                 Topo::Share(2),
                 vec![pspec(Mode::PullSync, Fin::End)],
                 vec![2],
-                vec![ProbeSpec { policy: vec![React::Nothing], rest: React::Pull }, ProbeSpec::passive()],
+                vec![ProbeSpec { policy: vec![React::Nothing], rest: React::Pull, pull_cap: 1000 }, ProbeSpec::passive()],
             ),
             acts: vec![Act::Subscribe(1), Act::ProbeAct(1, React::Pull)],
         },
@@ -276,8 +278,8 @@ pub fn witnesses() -> Vec<Witness> {
                 vec![pspec(Mode::PullSync, Fin::End)],
                 vec![3],
                 vec![
-                    ProbeSpec { policy: vec![React::Nothing, React::Pull, React::Nothing], rest: React::Nothing },
-                    ProbeSpec { policy: vec![React::Nothing, React::Terminate], rest: React::Nothing },
+                    ProbeSpec { policy: vec![React::Nothing, React::Pull, React::Nothing], rest: React::Nothing, pull_cap: 1000 },
+                    ProbeSpec { policy: vec![React::Nothing, React::Terminate], rest: React::Nothing, pull_cap: 1000 },
                 ],
             ),
             acts: vec![Act::Subscribe(1), Act::ProbeAct(1, React::Pull)],
